@@ -49,7 +49,8 @@ def rulesFor (num : Nat) : List Rule :=
 
 structure Quirks where
   d10 : Bool := false     -- distance half of compressed_speed_distance loses its top nibble
-  d11 : Bool := false     -- total_cycles / accumulated_power accumulators have mask 0
+  d11c : Bool := false    -- the total_cycles accumulator has mask 0
+  d11p : Bool := false    -- the accumulated_power accumulator has mask 0
 deriving Repr, Inhabited, DecidableEq
 
 /-- value of a source: a scalar, or the little-endian number of a byte array of exactly the
@@ -72,15 +73,15 @@ def applyComps (q : Quirks) (pm : PMsg) (isBytes : Bool) : List Comp → Nat →
   | [], _, m, g => (m, g)
   | c :: cs, v, m, g =>
     let slice := v % 2 ^ c.bits
-    -- D10: the generated code shifts the third byte inside uint8
-    let slice := if q.d10 ∧ isBytes ∧ c.dst = "Distance" then ((v / 4096) % 16) + ((v / 65536) % 16) * 16 else slice
+    -- D10: the generated code shifts the third byte inside uint8, so only 8 of the 12 bits survive
+    let slice := if q.d10 ∧ isBytes ∧ c.dst = "Distance" then slice % 256 else slice
     match pm.idx c.dst with
     | none => applyComps q pm isBytes cs (v / 2 ^ c.bits) m g
     | some di =>
       if c.accumulate then
         let a0 := accuOf g c.dst
         let a := if a0.present then a0
-                 else if q.d11 ∧ c.bits ≠ 12 then Accu.zero else Accu.new c.bits
+                 else if (q.d11c ∧ c.dst = "TotalCycles") ∨ (q.d11p ∧ c.dst = "AccumulatedPower") then Accu.zero else Accu.new c.bits
         let r := a.accumulate slice
         applyComps q pm isBytes cs (v / 2 ^ c.bits) (m.setU di r.2) (setAccu g c.dst r.1)
       else applyComps q pm isBytes cs (v / 2 ^ c.bits) (m.setU di slice) g
@@ -122,15 +123,34 @@ def logAgrees (q : Quirks) (d12 : Bool) (P : Profile) (log : List (Msg × Global
       model.1 == spec.1 && go rest spec.2
   go log start
 
+/-- first message on which the model's expansion and the specification (with every known deviation
+    switched on) differ: index, message number, the three values lists -/
+def firstDiff (P : Profile) (log : List (Msg × Globals)) : String :=
+  let q : Quirks := { d10 := true, d11c := true, d11p := true }
+  let start : Globals := match log with | (_, g0) :: _ => g0 | [] => {}
+  let rec go : List (Msg × Globals) → Globals → Nat → String
+    | [], _, _ => "no-difference"
+    | (m, g) :: rest, sg, i =>
+      let model := expand P m g
+      let spec := expandSpec q P m sg
+      if model.1 == spec.1 then go rest spec.2 (i + 1)
+      else s!"msg#{i} num={m.num} in={repr m.vals} model={repr model.1.vals} spec={repr spec.1.vals} g={repr g} sg={repr sg}"
+  go log start 0
+
+/-- all sublists, smaller ones first -/
+def subsetsBySize {α} (l : List α) : List (List α) :=
+  let all := l.foldr (fun x acc => acc ++ acc.map (x :: ·)) [[]]
+  (List.range (l.length + 1)).flatMap fun k => all.filter (·.length == k)
+
 /-- the smallest set of known deviations under which the model's expansion of this file equals the
-    specification: "none", a `+`-joined subset of d10/d11/d12, or "unclassified" -/
+    specification: "none", a `+`-joined subset of d10/d11c/d11p/d12, or "unclassified" -/
 def classify (P : Profile) (log : List (Msg × Globals)) : String :=
-  let cands : List (String × Quirks × Bool) :=
-    [("none", {}, false), ("d10", { d10 := true }, false), ("d11", { d11 := true }, false), ("d12", {}, true),
-     ("d10+d11", { d10 := true, d11 := true }, false), ("d10+d12", { d10 := true }, true),
-     ("d11+d12", { d11 := true }, true), ("d10+d11+d12", { d10 := true, d11 := true }, true)]
-  match cands.find? (fun c => logAgrees c.2.1 c.2.2 P log) with
-  | some c => c.1
+  let names := ["d10", "d11c", "d11p", "d12"]
+  let cands := subsetsBySize names
+  match cands.find? (fun c =>
+      logAgrees { d10 := c.contains "d10", d11c := c.contains "d11c", d11p := c.contains "d11p" } (c.contains "d12") P log) with
+  | some [] => "none"
+  | some c => "+".intercalate c
   | none => "unclassified"
 
 end Fit.XSpec
